@@ -387,7 +387,7 @@ func keyshareHashRule(P *Program, R *Report) {
 		if st := fs["OtherCommitments"]; st != nil {
 			oc = strings.Join(sortedKeys(phiLeaves(st.Val)), "|")
 		}
-		R.decide(rule, kKSUserComm+":OtherCommitments", "OtherCommitments = c[2:] (when present)", oc == commit+"[2:]|nil", "got "+oc, P.Pos(fn.Pos()))
+		R.decide(rule, kKSUserComm+":OtherCommitments", "OtherCommitments = c[2:] (when present)", (oc == commit+"[2:]|nil" || oc == commit+"[2:]"), "got "+oc, P.Pos(fn.Pos()))
 		kid := ""
 		if st := fs["KeyID"]; st != nil {
 			kid = desc(st.Val)
@@ -452,7 +452,7 @@ func keyshareResponsesRule(P *Program, R *Report) {
 	rule := "C14.d"
 	if fn := mustFunc(P, R, rule, kKSUserResp); fn != nil {
 		fs := litFieldStores(fn, "new:gabi.KeyshareResponseRequest[T]")
-		t := termAtStore(P, fn, fs["UserResponse"])
+		t := finalTermOfStored(P, fn, fs["UserResponse"])
 		ch := "call:gabi.(ProofBuilderList).ChallengeWithRandomizers(arg#0,arg#3,arg#4,arg#1,arg#5)#0"
 		ok := false
 		if !t.Top && len(t.M) == 2 {
